@@ -33,6 +33,24 @@ def C07 : List (String × String) := [("BaseProposalSelector.getNodes", "434f9eb
   ("BaseProposalSelector.selectFromProposer", "0d30a369ef3a11ec"),
   ("BlockBasedProposerSelector.Select", "52eecbad2e40d1ff")]
 
+def C22 : List (String × String) := [("TempPool.OperationHashes", "2eecdd1baddcea22"),
+  ("TempPool.SetOperation", "c6332c9beed9b868"),
+  ("TempPool.setRemoveNewOperations", "c11623aa3d6a432c"),
+  ("TempPool.removeNewOperationOrdereds", "7a4d3c4a0b0e082a"),
+  ("newNewOperationLeveldbKeys", "6f3496b9a5b52699"),
+  ("leveldbNewOperationOrderedKey", "9cd44d0080ec9bfd"),
+  ("leveldbNewOperationKeysKey", "67b7fa82cfa3682d"),
+  ("leveldbNewOperationKey", "279e16b72adab0e3")]
+
+def C23 : List (String × String) := [("TempPool.SuffrageExpelOperation", "3fa2092605c65cdd"),
+  ("TempPool.SetSuffrageExpelOperation", "f099979763cf5453"),
+  ("TempPool.TraverseSuffrageExpelOperations", "a5c02dff48eda335"),
+  ("TempPool.RemoveSuffrageExpelOperationsByFact", "72a64edcc68929bd"),
+  ("TempPool.RemoveSuffrageExpelOperationsByHeight", "2b37af6f10be2ba2"),
+  ("newSuffrageExpelOperationKey", "df0d99744e9813ff"),
+  ("leveldbSuffrageExpelOperation", "6c8fbfd73bc7b251"),
+  ("Storage.Iter", "24370b112fc79300")]
+
 def C29 : List (String × String) := [("EnsureRead", "a37a8396188f899f"),
   ("WriteLengthed", "02f939df4a74b2e6"),
   ("ReadLengthedBytes", "51db0448790bfa52"),
